@@ -237,6 +237,70 @@ const CHAINS: [(&str, &str, &str, &str, bool); 72] = [
     ("unary_mix", "SELECT 1", " + - 1", "", true),
 ];
 
+/// data-type spellings (every arm of `parse_data_type`, with and without arguments, plus user-defined names)
+const TYPES: [&str; 86] = [
+    "INTEGER", "INT", "INT(11)", "SIGNED", "UNSIGNED", "INT UNSIGNED", "SMALLINT", "BIGINT", "LONG", "TINYINT", "MEDIUMINT",
+    "BOOLEAN", "BOOL", "BIT", "BIT(8)", "BIT VARYING(8)", "FLOAT", "FLOAT(10)", "FLOAT(10, 2)", "REAL", "DOUBLE", "DOUBLE PRECISION",
+    "DOUBLE(10, 2)", "NUMERIC", "NUMERIC(10)", "NUMERIC(10, 2)", "DECIMAL(10, 2)", "DECIMAL", "DEC(5)", "DEC(5, 1)", "DATE", "NAME",
+    "TIME", "TIME(3)", "TIME WITH TIME ZONE", "TIME WITHOUT TIME ZONE", "TIME(3) WITH TIME ZONE", "TIMESTAMP", "TIMESTAMP(6)",
+    "TIMESTAMP WITH TIME ZONE", "TIMESTAMP WITHOUT TIME ZONE", "DATETIME", "DATETIME(3)", "YEAR", "YEAR(4)", "INTERVAL YEAR",
+    "INTERVAL DAY TO SECOND", "INTERVAL YEAR TO MONTH", "INTERVAL HOUR(2) TO SECOND(3)", "INTERVAL", "VARCHAR", "VARCHAR(10)",
+    "VARCHAR(10) CHARACTER SET utf8", "VARCHAR(10 CHARACTERS)", "VARCHAR(10 OCTETS)", "VARCHAR(MAX)", "CHAR", "CHAR(5)", "CHARACTER(5)", "CHARACTER VARYING(10)",
+    "CHAR VARYING(10)", "CHARACTER LARGE OBJECT", "CHAR(5 CHARACTERS)", "NCHAR", "NCHAR(5)", "NCHAR VARYING(5)", "NVARCHAR(5)", "NVARCHAR", "TEXT", "TEXT(100)",
+    "BINARY(4)", "VARBINARY(8)", "BINARY", "BLOB", "ENUM('a', 'b')", "ENUM(('x', 'y'), 'z')", "ENUM", "ENUM()", "SET('a', 'b')", "SET(('x'), 'y', ('z', ('w')))",
+    "NATIONAL VARCHAR(5)", "NATIONAL CHARACTER(5)", "NATIONAL CHAR VARYING(5)", "NATIONAL CHARACTER VARYING(5)", "my_type", "my_type(3, 4)",
+];
+
+/// statements in which a data type can appear; `{T}` is replaced by the type
+const TYPE_POSITIONS: [&str; 16] = [
+    "CREATE TABLE t (c {T})",
+    "CREATE TABLE t (c {T} NOT NULL, d INTEGER)",
+    "CREATE TABLE t (b INTEGER, c {T} DEFAULT NULL, PRIMARY KEY (b))",
+    "ALTER TABLE t ADD COLUMN c {T}",
+    "ALTER TABLE t ADD c {T} NOT NULL",
+    "ALTER TABLE t MODIFY COLUMN c {T}",
+    "ALTER TABLE t CHANGE COLUMN c d {T}",
+    "SELECT CAST(a AS {T})",
+    "SELECT CAST(a AS {T}) FROM t WHERE CAST(b AS {T}) = 1",
+    "CREATE PROCEDURE p(IN a {T}) BEGIN SELECT 1; END",
+    "CREATE PROCEDURE p() BEGIN DECLARE x {T}; SELECT 1; END",
+    "CREATE FUNCTION f(a {T}) RETURNS {T} BEGIN RETURN 1; END",
+    "CREATE DOMAIN d AS {T}",
+    "CREATE DOMAIN d AS {T} CHECK (VALUE > 0)",
+    "CREATE TYPE ty AS ({T}, b {T})",
+    "CREATE TYPE ty AS {T}",
+];
+
+/// (start, end) character ranges of the tokens of `s` (quotes grouped, words grouped, other characters single)
+fn rough_tokens(cs: &[char]) -> Vec<(usize, usize)> {
+    let mut out = vec![];
+    let mut i = 0;
+    while i < cs.len() {
+        let c = cs[i];
+        if c.is_whitespace() {
+            i += 1;
+        } else if c == '\'' || c == '"' || c == '`' {
+            let mut j = i + 1;
+            while j < cs.len() && cs[j] != c {
+                j += 1;
+            }
+            out.push((i, (j + 1).min(cs.len())));
+            i = j + 1;
+        } else if c.is_alphanumeric() || c == '_' {
+            let mut j = i;
+            while j < cs.len() && (cs[j].is_alphanumeric() || cs[j] == '_') {
+                j += 1;
+            }
+            out.push((i, j));
+            i = j;
+        } else {
+            out.push((i, i + 1));
+            i += 1;
+        }
+    }
+    out
+}
+
 fn chain(name: &str, n: usize) -> Option<String> {
     let c = CHAINS.iter().find(|c| c.0 == name)?;
     Some(format!("{}{}{}", c.1, c.2.repeat(n), c.3))
@@ -471,6 +535,65 @@ impl Pool {
                 }
             }
         }
+    }
+
+    /// many small inputs: the lines are written ahead (pipelined), the replies collected in order; an
+    /// abnormal termination is attributed to the first line without a reply and the rest is re-sent
+    fn run_batch(&mut self, lines: &[String], timeout: Duration) -> Vec<WOut> {
+        let mut out: Vec<WOut> = Vec::with_capacity(lines.len());
+        while out.len() < lines.len() {
+            if self.w.is_none() {
+                self.w = Some(Worker::spawn());
+            }
+            let w = self.w.as_mut().unwrap();
+            let pending = &lines[out.len()..];
+            let chunk = &pending[..pending.len().min(256)];
+            let mut buf = String::new();
+            for l in chunk {
+                buf.push_str(l);
+                buf.push('\n');
+            }
+            let wrote = w.stdin.write_all(buf.as_bytes()).is_ok() && w.stdin.flush().is_ok();
+            let mut got = 0usize;
+            let mut failure: Option<WOut> = None;
+            while got < chunk.len() {
+                match wait_reply(w, timeout.as_secs_f64() * 4.0) {
+                    Ok(l) => {
+                        let mut it = l.split(' ');
+                        let k = it.next().unwrap_or("");
+                        let ms: u128 = it.next().and_then(|s| s.parse().ok()).unwrap_or(0);
+                        out.push(match k {
+                            "ok" => WOut::Ok(ms),
+                            "err" => WOut::Err(ms),
+                            "toodeep" => WOut::TooDeep(ms),
+                            "toolong" => WOut::TooLong(ms),
+                            "panic" => WOut::Panic,
+                            other => WOut::Crash(format!("unexpected worker reply {}", other)),
+                        });
+                        got += 1;
+                    }
+                    Err(true) => {
+                        w.kill();
+                        failure = Some(WOut::Timeout);
+                        break;
+                    }
+                    Err(false) => {
+                        let st = w.child.wait().map(|s| format!("{}", s)).unwrap_or_default();
+                        failure = Some(WOut::Crash(st));
+                        break;
+                    }
+                }
+            }
+            if let Some(f) = failure {
+                self.w = None;
+                self.restarts += 1;
+                out.push(f); // the line being processed when the worker stopped answering
+            } else if !wrote {
+                self.w = None;
+                self.restarts += 1;
+            }
+        }
+        out
     }
 
     fn run(&mut self, line: &str, timeout: Duration) -> WOut {
@@ -1028,6 +1151,83 @@ fn main() {
                 rep.traces_validated += 1;
                 if got != m {
                     rep.fail(FailKind::ModelDiff, None, "chain length limit: parser and chain model disagree", &format!("chain {} with {} links: parser {}, model {}", c.0, n, got, m));
+                }
+            }
+        }
+    }
+    // ---- data types: every spelling in every position, every truncation and every single-token deletion ------
+    {
+        // the generator must know every type keyword the parser dispatches on (table re-read from the source)
+        let arms = model.ask("typearms");
+        if let Some(Sx::List(v)) = Sx::parse(&arms) {
+            for a in v.iter().skip(1).filter_map(|x| x.as_atom()) {
+                let covered = TYPES.iter().any(|t| t.split(|c: char| !c.is_alphanumeric() && c != '_').next() == Some(a));
+                rep.count("datatype_arms_checked");
+                if !covered {
+                    rep.fail(FailKind::ModelDiff, None, "the data-type generator has no spelling for a type keyword of parse_data_type", &format!("type keyword {} (crates/vibesql-parser/src/parser/create/types.rs) is not in TYPES of harness/src/bin/c23.rs", a));
+                }
+            }
+        }
+        let mut seen: std::collections::HashSet<String> = Default::default();
+        let mut variants: Vec<(String, &'static str)> = vec![];
+        for (ti, t) in TYPES.iter().enumerate() {
+            for (pi, pos) in TYPE_POSITIONS.iter().enumerate() {
+                // quick tier: column definition, ALTER ADD, CAST, routine parameter and DECLARE for every type; of the
+                // other positions two per type, rotating with the seed
+                let fixed = matches!(pi, 0 | 3 | 7 | 9 | 10);
+                if args.quick() && !fixed && (ti + pi + args.seed as usize) % 6 != 0 {
+                    continue;
+                }
+                let full = pos.replace("{T}", t);
+                let cs: Vec<char> = full.chars().collect();
+                let toks = rough_tokens(&cs);
+                variants.push((full.clone(), "full"));
+                // token-level truncation: cut before every token
+                for (a, _) in &toks {
+                    variants.push((cs[..*a].iter().collect(), "token_truncation"));
+                }
+                // single-token deletion
+                for (a, b) in &toks {
+                    // parentheses, commas, quoted strings and every other punctuation token (words only in the thorough tier)
+                    if args.quick() && (cs[*a].is_alphanumeric() || cs[*a] == '_') {
+                        continue;
+                    }
+                    let mut v: String = cs[..*a].iter().collect();
+                    v.extend(cs[*b..].iter());
+                    variants.push((v, "token_deletion"));
+                }
+                // character-level truncation: everywhere in the thorough tier; in the quick tier for the first
+                // column position and one more position rotating with the seed
+                if !args.quick() || pi == 0 || (ti + pi + args.seed as usize) % TYPE_POSITIONS.len() == 0 {
+                    for i in 0..cs.len() {
+                        variants.push((cs[..i].iter().collect(), "char_truncation"));
+                    }
+                }
+            }
+        }
+        let variants: Vec<(String, &'static str)> = variants.into_iter().filter(|(v, _)| seen.insert(v.clone())).collect();
+        for part in variants.chunks(2048) {
+            if enough_failures(&mut rep) {
+                break;
+            }
+            let lines: Vec<String> = part.iter().map(|(v, _)| sx::hex_str(v).replace('-', "")).collect();
+            let outs = pool.run_batch(&lines, Duration::from_secs(2));
+            for ((v, kind), o) in part.iter().zip(outs.iter()) {
+                rep.case(&format!("type {}", v), true);
+                rep.count(&format!("datatype_{}", kind));
+                rep.count(match o {
+                    WOut::Ok(_) => "datatype_outcome_ok",
+                    WOut::Err(_) | WOut::TooDeep(_) | WOut::TooLong(_) => "datatype_outcome_error",
+                    _ => "datatype_outcome_abnormal",
+                });
+                match o {
+                    WOut::Ok(ms) | WOut::Err(ms) | WOut::TooDeep(ms) | WOut::TooLong(ms) => slowest = slowest.max(*ms),
+                    bad => rep.fail(
+                        FailKind::Oracle,
+                        None,
+                        &format!("Parser::parse_sql did not return on a {} of a statement with a data type: {:?}", kind.replace('_', " "), bad),
+                        &format!("input: {:?}\ninput hex: {}\nreplay: echo '{}' | harness/target/debug/c23 worker\noutcome: {:?}", v, sx::hex_str(v), sx::hex_str(v), bad),
+                    ),
                 }
             }
         }
